@@ -424,3 +424,14 @@ def binary_name(rng, target_name):
     if rng.random() < 0.25:
         name += rng.choice([".exe", ".EXE"])
     return name
+
+
+def gen_streams(rng):
+    """the standard streams of two more runs of the line (compiled binary, sometimes the cached route through
+    mage): one detached from everything (cron / systemd / exec.Command with nil streams), one drawn freely"""
+    detached = {"stdin": rng.choice(["devnull", "devnull", "closed"]), "stdout": "file", "stderr": "devnull", "via": "bin"}
+    free = {"stdin": rng.choice(["data", "empty", "devnull", "closed", "pty", "pty"]),
+            "stdout": rng.choice(["pipe", "file", "pty"]),
+            "stderr": rng.choice(["pipe", "file", "devnull", "pty", "pty"]),
+            "via": "mage" if rng.random() < 0.2 else "bin"}
+    return [detached, free]
